@@ -8,19 +8,20 @@ NOTE_COMMON = ("Trusted: Lean 4.33 kernel; axioms propext/Classical.choice/Quot.
 
 CHECKS = {
  "C01": dict(
-   text="Model of every built-in Encode/Decode impl as a universe of codec shapes (lean/Minicbor/Types.lean: 23 type constructors covering the ~190 registered Rust "
-        "instantiations); Lean theorem (being completed, see level_note): encodeT t v = some bs -> decodeT t (bs ++ rest) = ok v rest for every type without an Option "
-        "directly inside an Option, by structural induction over values of unbounded size. Correspondence: for every registered instantiation, boundary + random values: "
-        "implementation bytes vs model bytes, then decode of the implementation's own bytes; oracle = the property itself (value text equal, floats bitwise, sets/maps "
-        "unordered, position == length) and comparison with the model.",
-   design="5/C01", technique="Lean 4 proof (mutual structural induction over the type/value universe) + differential correspondence on ~190 concrete Rust types",
-   note="the general theorems are being added to lean/Minicbor/Thm/C01.lean (the evidence file lists what was audited on each run); Token round-trip is covered by C11"),
+   text="Lean theorem C01.roundtrip (full, no partial): for every type of the built-in universe (23 codec shapes covering the ~190 registered Rust instantiations), "
+        "every value and every continuation, encodeT t v = some bs -> decodeT t (bs ++ rest) = ok v rest, under the decidable side conditions WF (tag numbers < 2^64), "
+        "NoOptOpt (no Option directly inside an Option) and bs.length < 2^64; optopt_lossy_general proves the exclusion is necessary. Correspondence: every registered "
+        "instantiation x boundary and random values: implementation bytes vs model bytes, then decode of the implementation's own bytes, judged by the property itself "
+        "(value equal, floats bitwise, sets/maps unordered, position == length) and compared with the model; Token round trip included.",
+   design="5/C01", technique="Lean 4 proof (induction principle over successful encodeT runs) + differential correspondence on ~190 concrete Rust types",
+   note="IPv6 flow-info/scope-id, pre-epoch SystemTime and non-UTF-8 paths are outside the value universe (the property's own exclusions); VecDeque values are built with a wrapped ring buffer"),
  "C07": dict(
-   text="Lean theorems (being completed, see level_note): lenT t v = length of encodeT t v for the whole built-in universe and Token.len = length of Token.enc for all 26 "
-        "token variants (after the fix: commit 6736830). Correspondence: `tenc` of the C01 corpus and `tokenc` of boundary/random token lists: reported len must equal the "
-        "number of bytes written, and both must equal the model's.",
-   design="5/C07", technique="Lean 4 proof (same induction as C01; finite case split for tokens) + differential correspondence",
-   note="derived CborLen (minicbor-derive/src/cbor_len.rs) is covered by the C08-C10 machinery (derive model, K2/K3 known findings) once it lands; exact-buffer consequence is C13's sink theorem"),
+   text="Lean theorems (full): len_exact_builtin (lenT t v = length of encodeT t v for the whole built-in universe; side condition SmallArity = tuples/records <= 23 "
+        "components, true of every Rust type), len_exact_token (all 26 token variants, after fix 6736830), exact_buffer; derived CborLen: len_exact_derived over the derive "
+        "model with the machine-checked counterexample for the remaining known finding K3. Correspondence: `tenc` of the C01 corpus, `tokenc` of boundary/random token "
+        "lists and `denc` of the generated derived types (all presence combinations): reported len must equal the bytes written, and both must equal the model's.",
+   design="5/C07", technique="Lean 4 proof (same induction as C01; finite case split for tokens; derive model) + differential correspondence",
+   note="K3 (array encoding, tagged nil field below the highest present index) is a recorded known finding; K2 and KD1 were repaired in /repo (d85a3d2, 36d21e9)"),
  "C03": dict(
    text="Lean theorems: every Encoder method of the model writes exactly the RFC 8949 preferred serialisation (encPref) of the value it denotes, "
         "for all arguments of its Rust type (u8..u64, i8..i64, Int over [-2^64,2^64-1], type_len for all majors, bytes/str of any length, floats, "
@@ -84,6 +85,16 @@ CHECKS = {
    note="All exactness theorems carry the hypothesis (encW w).length < 2^64 (true of every Rust slice): the model's byte lists are unbounded, and on "
         "a >2^64-byte encoding the saturating u64 counters would clip (model artefact, not reachable in Rust). 32-bit targets (u64_to_usize failing) "
         "are not modelled. The no-alloc build is exercised through a separate crate /verif/harness/noalloc (own workspace/target dir)."),
+ "C02": dict(
+   text="Lean theorems (full, arbitrary input bytes): no_panic for every accessor, skip (both builds), decodeT for every type, tokens; fuel adequacy/irrelevance of every "
+        "fuelled loop (= termination with work bounded by the input); Dec.Suffix (the remaining input after any outcome is a suffix of the one before: position in bounds "
+        "and monotone); pos_stuck_past_end; alloc_linear (decoded value size + remaining <= input length: declared lengths cannot blow memory); ArrayVec bookkeeping model "
+        "drops every pushed element exactly once; the pre-fix Duration code is shown to panic (F1). Correspondence: all byte strings <= 2 bytes x 26 accessors, all heads x "
+        "widths x extreme arguments, typed decodes of ~190 types on prefixes/mutations with a counting allocator (<= 256*len + 64KiB), call sequences with set_position / probe, "
+        "drop-counting containers (created == dropped).",
+   design="5/C02", technique="Lean 4 proof (NoPanic / Consumes / Suffix predicates by induction over the type universe and fuel) + differential correspondence with runtime observers",
+   note="partial by nature: memory safety of the unsafe blocks (ArrayVec MaybeUninit, ByteSlice casts), real allocator behaviour and wall time are outside the model; "
+        "Size::head/tail (info.rs) are exercised by the correspondence only"),
  "C05": dict(
    text="Lean theorem int_accessor_exact: for every accessor type (u8..u64,i8..i64,Int), every sign, every head width and every argument that fits the width, "
         "the model accessor returns the mathematical value and stops right after the head iff the value is representable in the type, and an error otherwise "
@@ -104,6 +115,32 @@ CHECKS = {
    note="the half crate's portable software path is what the pinned build uses on x86_64 (default-features = false) and what is modelled; its F16C/NEON paths are not exercised. "
         "NaN payload propagation is implementation-defined in IEEE 754: the oracle checks NaN-ness and sign, the exact payload is compared with the model only. "
         "In the thorough tier the exhaustive 2^32 sweep is judged by the harness reference; the model hash covers a 2^28 (enc f16) subset for time reasons."),
+ "C17": dict(
+   text="Lean theorems about a model of the bridge (SVal = the tree of Serializer calls, ser = ser.rs method by method, SType/de = de.rs composed with a model of serde's std/derive "
+        "visitors and Content buffer): (a) ser writes exactly one well-formed item for every value (ser_wellformed: ser v = encW of an explicit valid wire tree); (b) the documented "
+        "representation in the RFC 8949 data model (ser_representation: struct = map keyed by field-name text, unit variant = text, other variants = one-entry map name->content, None = "
+        "null, unit = 80, Some/newtype transparent); (c) round trip de t (ser v ++ rest) = ok v rest by mutual structural induction over the typing derivation, unbounded sizes, for every "
+        "type read directly from the wire: all primitives to 64 bits, char, strings, byte buffers, Option, unit, newtype/tuple/struct types, known- and unknown-length sequences and "
+        "maps, tuples, BTreeMap, externally tagged enums with unit/newtype/tuple/struct variants (roundtrip_plain); unknown struct fields ignored; definite and indefinite seq/map/struct "
+        "maps accepted; the Option-in-Option exclusion, K6 (char behind serde's Content) and K7 (unit behind Content) as machine-checked counterexamples, and the refutation of the "
+        "full statement (roundtrip_statement_false). Correspondence: ~100 serde types incl. flatten / internally / adjacently tagged / untagged, judged by the property's own oracle in "
+        "the orchestrator (independent encoder of the documented representation, reference well-formedness parser, de(ser v)==v, consumed==len, accepted re-framings) and compared "
+        "with the model.",
+   design="5/C17", technique="Lean 4 proof (mutual structural induction over typing derivations, loop lemmas, finite decide tables for Decoder::type_of) + differential correspondence with in-orchestrator oracle",
+   note="PARTIAL: the general round-trip proof covers the directly-read types; for the four Content-buffered representations (flatten, internally tagged, adjacently tagged, untagged) "
+        "the full statement is stated (roundtrip_statement), refuted exactly in the K6/K7 classes, proved only on instances (content_roundtrip_examples) and otherwise rests on the "
+        "correspondence run. MODELLED, NOT VERIFIED: serde 1.0.229's derive output, std visitors and private Content/ContentDeserializer machinery (transcribed from the registry "
+        "sources); the f64->f32 coercion behind Content and Content-in-Content nesting are not modelled (model answers `unmodelled`, never reached by the streams). The harness builds "
+        "each value from the op text through serde and refuses to run unless its own Serializer trace equals that text."),
+ "C18": dict(
+   text="Lean theorems on the shared universe NType (ints, bool, char, floats, strings, unit, Option, Vec, fixed arrays, tuples, BTreeMap, compositions) with natEnc/natDec transcribing "
+        "encode.rs/decode.rs: interop_bytes (bridge bytes = native bytes for every value), natDec_eq_de (without fixed arrays the two decoders are the same function of arbitrary bytes), "
+        "interop_decode_agree (on ARBITRARY bytes and all shared types incl. [T;N]: two ok answers carry the same value and position, so each side returns that value or an error), "
+        "interop_decode_canonical (the common bytes decode to v on both sides, consuming exactly the item), array_reframing_example (the 'or an error' is real). Correspondence: 43 shared "
+        "types x boundary values: minicbor::to_vec vs minicbor_serde::to_vec vs the orchestrator's own encoder; minicbor::decode vs minicbor_serde on canonical bytes, re-framings "
+        "(wider heads, indefinite containers, chunked strings), strict prefixes and byte mutations, judged by the property's oracle and compared with the model.",
+   design="5/C18", technique="Lean 4 proof (mutual structural induction; compositional 'agree on success' relation over the decoder monad) + differential correspondence",
+   note="serde's std impls for the shared types are modelled, not verified; Option directly inside Option is the properties' documented exclusion (Some(None) is null on both sides, they agree with each other)."),
 }
 
 def main():
